@@ -31,8 +31,9 @@ PROP = "C15"
 RULE = ("geometry: polygons with 3..12 vertices (integer grids up to 7x7 with "
         "half-integer query points incl. points level with vertices and on the "
         "lines of horizontal edges; self-intersecting, repeated and closing "
-        "vertices, collinear runs; random floats scaled by 10^-6..10^6 "
-        "independently per axis) x 12..40 query points (bounding-box random, "
+        "vertices, collinear runs; integer-grid polygons translated by +-2^20..2^40; random "
+        "floats scaled by 10^-6..10^6 independently per axis; offset polygons of size s at "
+        "offset o with |o|/s = 1..1e9, both signs; tiny polygons with coordinates 1e-12..1e-8) x 12..40 query points (bounding-box random, "
         "vertex-level, near-edge, on-boundary, far outside), each polygon also "
         "cyclically shifted, reversed, closed and with a doubled vertex; "
         "exhaustive part: all triangles (thorough: and all quadrilaterals) on "
@@ -292,8 +293,38 @@ def impl_pip(poly, p):
 # --------------------------------------------------------------------------
 def gen_polygon(rng):
     kind = rng.choice(["grid", "grid", "grid", "float", "float", "star",
-                       "selfx", "dup", "collinear", "rect"])
+                       "selfx", "dup", "collinear", "rect",
+                       "offset", "offset", "tiny", "gridshift", "gridshift"])
     n = rng.choice([3, 3, 4, 4, 5, 6, 7, 8, 10, 12])
+    if kind == "gridshift":
+        # integer-grid polygon far from the origin (gates on index, frame, time):
+        # exact in binary64, small relative to its distance from 0
+        g = rng.choice([1, 2, 3, 6])
+        tx = rng.choice([-1, 1]) * (2 ** rng.randint(20, 40) + rng.randint(0, 1000))
+        ty = rng.choice([tx, rng.choice([-1, 1]) * (2 ** rng.randint(20, 40)), rng.randint(-3, 3)])
+        poly = [[float(tx + rng.randint(0, g)), float(ty + rng.randint(0, g))] for _ in range(n)]
+        return kind, poly
+    if kind == "offset":
+        # size s at offset o, |o|/s between 1 and 1e9, both signs, per axis
+        sx = 10.0 ** rng.randint(-6, 6)
+        sy = 10.0 ** rng.randint(-6, 6)
+        bx = rng.randint(0, 9)
+        by = rng.choice([bx, rng.randint(0, 9)])
+        ox = rng.choice([-1, 1]) * sx * 10.0 ** bx * rng.uniform(1, 9)
+        oy = rng.choice([-1, 1]) * sy * 10.0 ** by * rng.uniform(1, 9)
+        if rng.random() < .4:     # a plain rectangle / convex gate, all vertices genuine
+            w, h = sx * rng.uniform(.5, 1), sy * rng.uniform(.5, 1)
+            poly = [[ox, oy], [ox, oy + h], [ox + w, oy + h], [ox + w, oy]]
+            k = rng.randrange(4)
+            poly = poly[k:] + poly[:k]
+            if rng.random() < .5:
+                poly.reverse()
+            return kind, poly
+        return kind, [[ox + sx * rng.uniform(-1, 1), oy + sy * rng.uniform(-1, 1)] for _ in range(n)]
+    if kind == "tiny":
+        # all coordinates between 1e-12 and 1e-8 in magnitude
+        s0 = 10.0 ** rng.randint(-12, -9)
+        return kind, [[s0 * rng.uniform(-9, 9), s0 * rng.uniform(-9, 9)] for _ in range(n)]
     if kind in ("grid", "selfx", "dup", "collinear"):
         g = rng.choice([2, 3, 4, 6])
         poly = [[float(rng.randint(0, g)), float(rng.randint(0, g))] for _ in range(n)]
@@ -339,7 +370,7 @@ def gen_points(rng, kind, poly, npts):
     w = (x1 - x0) or 1.0
     h = (y1 - y0) or 1.0
     pts = []
-    integer = kind in ("grid", "selfx", "dup", "collinear", "rect")
+    integer = kind in ("grid", "selfx", "dup", "collinear", "rect", "gridshift")
     for _ in range(npts):
         r = rng.random()
         if integer and r < .45:
@@ -921,7 +952,7 @@ def run(run):
     # auxiliary evaluators on every point. Float polygons (numerators and
     # denominators of hundreds of bits, slow in the VM): a bounded number of
     # cases, the first points only, both predicates.
-    INTEGER = ("grid", "selfx", "dup", "collinear", "rect", "hand", "sweep")
+    INTEGER = ("grid", "selfx", "dup", "collinear", "rect", "hand", "sweep", "gridshift")
     full_idx = [k for k, c in enumerate(geom) if c.get("shape") in INTEGER]
     float_idx = [k for k, c in enumerate(geom) if c.get("shape") not in INTEGER]
     float_idx = float_idx[:(400 if run.thorough else 45)]
